@@ -381,7 +381,7 @@ def build():
   return Property(
     'C18', units,
     bounded=[Bounded('C18/parse/idempotent_order_independent_syntax_agnostic', 'replay/c18_enum.py', ['--tags', '2'], ['--tags', '3'],
-                     'names x up to 2 (quick) / 3 (thorough) tags with keys and values drawn from a token set containing every reserved character ; ! ^ = ~ { } " \\ , -- all permutations, carbon and OpenMetrics syntax, with and without a name tag; on the real TaggedSeries.parse',
+                     'names x up to 2 (quick) / 3 (thorough) tags with keys and values drawn from a token set containing every reserved character ; ! ^ = ~ { } " \\ , -- all permutations, carbon and OpenMetrics syntax, with and without a name tag, duplicate tags, and OpenMetrics tag lists with a malformed pair (missing quote / value / separator, stray text) next to well-formed ones judged by an independent strict parser; on the real TaggedSeries.parse',
                      "idempotence and the agreement of the two syntaxes depend on str.split, slicing and an re.match with an escaped-quote pattern: replace/decode clauses stay undecided in z3 and cvc5")],
     trusted_base=['A-ENGINE', 'A-SMT', 'A-LIB(sorted is a function of the multiset)', 'A-STR'],
     assumptions=[
